@@ -225,9 +225,12 @@ class Gen:
 
     def signal(self, t):
         r = self.rng
-        return SignalState(time_step=t, horn=r.random() < 0.5, indicator_left=r.random() < 0.5,
-                           indicator_right=r.random() < 0.5, braking_lights=r.random() < 0.5,
-                           hazard_warning_lights=r.random() < 0.5, flashing_blue_lights=r.random() < 0.5)
+        # a third of the signal states come out of array code: their flags are numpy booleans
+        # (XML only: the protobuf runtime refuses anything but bool / int for a bool field - the annotated type is bool)
+        b = (lambda x: np.bool_(x)) if r.random() < 0.33 and self.fmt == "xml" else bool
+        return SignalState(time_step=t, horn=b(r.random() < 0.5), indicator_left=b(r.random() < 0.5),
+                           indicator_right=b(r.random() < 0.5), braking_lights=b(r.random() < 0.5),
+                           hazard_warning_lights=b(r.random() < 0.5), flashing_blue_lights=b(r.random() < 0.5))
 
     # ---------------------------------------------------------------- obstacles
     def occupancies(self, t0, n):
@@ -313,6 +316,15 @@ class Gen:
                     lanelet_type=types,
                     user_one_way={self.enum_in(RoadUser, "vehicleType") for _ in range(r.randint(0, 2))} or None,
                     user_bidirectional={self.enum_in(RoadUser, "vehicleType")} if r.random() < 0.3 else None))
+        if r.random() < 0.3:
+            # laterally adjacent lanelets hold ONE array object for their common boundary (what hand-written map code
+            # and deep copies of it do): value-equal to two separate arrays
+            by_id = {x.lanelet_id: x for x in lls}
+            for x in lls:
+                up = by_id.get(x.adj_left) if x.adj_left is not None else None
+                if up is not None and up.right_vertices.shape == x.left_vertices.shape \
+                        and np.array_equal(up.right_vertices, x.left_vertices):
+                    up.right_vertices = x.left_vertices
         signs, lights, inters = [], [], []
         from commonroad.scenario.traffic_sign import TrafficSignIDCountries
         sign_ids = [m for m in TrafficSignIDCountries[self.country] if m.value in set(self.enums["trafficSignID"])
@@ -341,8 +353,13 @@ class Gen:
             cyc = [TrafficLightCycleElement(self.enum_in(TrafficLightState, "trafficLightColor"), r.randint(1, 30))
                    for _ in range(r.randint(1, 4))]
             act = r.random() < 0.7
+            if r.random() < 0.3 and self.fmt == "xml":
+                act = np.bool_(act)
+            period = sum(e.duration for e in cyc)
             t = TrafficLight(self.nid, np.array([self.f(-50, 50), self.f(-50, 50)]),
-                             TrafficLightCycle(cyc, time_offset=r.choice([0, 0, 4, 11]), active=act), active=act,
+                             # offsets of a whole number of periods are offsets like any other
+                             TrafficLightCycle(cyc, time_offset=r.choice([0, 0, 4, 11, period, 2 * period]), active=act),
+                             active=act,
                              direction=self.enum_in(TrafficLightDirection, "direction"))
             self.nid += 1
             lights.append(t)
